@@ -275,6 +275,7 @@ def run_infinite(spec):
             opts['combine'] = False  # VUMPS works with combine=False only (asserted by the engine)
         tags = dict(engine=kind, mixer=str(mixer), update_env=spec['N_sweeps_check'] // 2)
         if kind == 'vumps1':
+            np.random.seed(spec['seed'])  # (from_desired_bond_dimension draws from the global numpy generator)
             psi = MPS.from_desired_bond_dimension(sites, spec['chi'], bc='infinite', unit_cell_width=L)
             opts['mixer'] = None
             opts.pop('mixer_params', None)
